@@ -1,6 +1,3 @@
 import CotengraVerif.Props.C11
-#print axioms Cotengra.C11.model_plan_sound
-#print axioms Cotengra.C11.head_plan_sound_partial
-#print axioms Cotengra.C11.head_plan_sound_nodup
-#print axioms Cotengra.C11.head_plan_counterexample
-#print axioms Cotengra.C11.single_plan_sound
+#print axioms Cotengra.C11.perm_is_perm
+#print axioms Cotengra.C11.plan_groups_partition
